@@ -1,31 +1,18 @@
 import Qryn.Sql.SegsOf
 import Qryn.Gen.JsonParser
 /-! C10: model of `sqlJsonParser.String` / `path2Sql` (clickhouse_planner/planner_parser_json.go), the object that
-    renders the parameters of `| json label="path", …`: as a segment list. Every label and every PART of every path
-    (`shared.JsonPathParamToArray`: identifiers, 1-based positions, unquoted field names — all arrive as strings) is
-    a string leaf; `col` is the text of the line column, `id` the value of the `ctx.Id()` counter before the call
-    (one id per path: `jp_<id+1>`, `jp_<id+2>`, …). That the Go code writes every part through `NewStringVal` is the
-    regenerated fact `Gen.JsonParser.partsEscaped` (the extractor fails closed on any other loop body); the text is
-    compared byte for byte with the real object's `String` by the `jsonparser` stream. -/
+    renders the parameters of `| json label="path", …`, as a segment list: it is the `jsonMap` node of the SQL object
+    model (`Sql.jsonMapSegs`, shared with C07's planner model). Every label and every NAME part of every path
+    (`shared.JsonPathParamToArray`: identifiers and quoted field names — of any bytes) is a string leaf; an index part
+    `[n]` is the decimal integer n+1 (`sql.NewIntVal`, after `fix: | json label="a[0]" …`). That the Go code builds every
+    part as `NewStringVal(name)` or `NewIntVal(int64(idx)+1)` and writes it with `part.String` is the regenerated fact
+    `Gen.JsonParser` (the extractor fails closed on any other construction or loop body); the text is compared byte for
+    byte with the real object's `String` by the `jsonparser` stream. -/
 namespace Qryn.LogQL
 open Qryn Qryn.Sql
 
-/-- `path2Sql`: `if(JSONType(col, 'p1','p2' as jp_N) == 'String', JSONExtractString(col, jp_N), JSONExtractRaw(col, jp_N))` -/
-def pathSegs (col : Bytes) (n : Nat) (path : List Bytes) : List Seg :=
-  [.raw (b "if(JSONType(" ++ col ++ b ", ")] ++ joinS (b ",") (path.map (fun p => [Seg.str p])) ++
-  [.raw (b " as jp_" ++ natDigits n ++ b ") == 'String', JSONExtractString(" ++ col ++ b ", jp_" ++ natDigits n ++
-         b "), JSONExtractRaw(" ++ col ++ b ", jp_" ++ natDigits n ++ b "))")]
+def jsonParserSegs (ps : List (Bytes × List JArg)) : List Seg := jsonMapSegs ps
 
-def pathsSegs (col : Bytes) : Nat → List (List Bytes) → List (List Seg)
-  | _, [] => []
-  | id, p :: ps => pathSegs col (id + 1) p :: pathsSegs col (id + 1) ps
-
-/-- `sqlJsonParser.String`: `mapFromArrays(['l1','l2'], [<path 1>,<path 2>])` -/
-def jsonParserSegs (col : Bytes) (id : Nat) (labels : List Bytes) (paths : List (List Bytes)) : List Seg :=
-  [.raw (b "mapFromArrays([")] ++ joinS (b ",") (labels.map (fun l => [Seg.str l])) ++ [.raw (b "], [")] ++
-  joinS (b ",") (pathsSegs col id paths) ++ [.raw (b "])")]
-
-def jsonParserText (col : Bytes) (id : Nat) (labels : List Bytes) (paths : List (List Bytes)) : Bytes :=
-  renderSegs (jsonParserSegs col id labels paths)
+def jsonParserText (ps : List (Bytes × List JArg)) : Bytes := renderSegs (jsonParserSegs ps)
 
 end Qryn.LogQL
